@@ -127,6 +127,19 @@ pub fn state_monitors(h: &Hist, ms: &mut MonState, out: &mut Vec<String>) {
         let aligned = pi.assets.iter().map(|c| c.denom.clone()).collect::<Vec<_>>() == pi.asset_denoms;
         out.push(format!("mon_static {} {} {}", pi.pool_identifier, same as u8, aligned as u8));
     }
+    // C16: every stored pool is well-formed; identifiers and LP denoms are unique
+    let mut uniq = String::new();
+    for p in o.pools.iter() {
+        let pi = &p.pool_info;
+        let (ty, amp) = match pi.pool_type { PoolType::ConstantProduct => ("cp", 0), PoolType::StableSwap { amp } => ("ss", amp) };
+        let mut fs: Vec<u128> = vec![pi.pool_fees.protocol_fee.share.atomics().u128(), pi.pool_fees.swap_fee.share.atomics().u128(), pi.pool_fees.burn_fee.share.atomics().u128()];
+        fs.extend(pi.pool_fees.extra_fees.iter().map(|f| f.share.atomics().u128()));
+        out.push(format!("mon_pool_wf {} {} {} {} {} {} {}", ty, amp, pi.asset_denoms.len(),
+            pi.asset_denoms.iter().map(|d| h.w.cd(d)).collect::<Vec<_>>().join(" "), pi.asset_decimals.len(), fs.len(),
+            fs.iter().map(|f| f.to_string()).collect::<Vec<_>>().join(" ")));
+        uniq += &format!(" {} {}", pi.pool_identifier, h.w.cd(&pi.lp_denom));
+    }
+    out.push(format!("mon_pools_unique {}{}", o.pools.len(), uniq));
     let removed = ms.statics.keys().filter(|id| !o.pools.iter().any(|p| &p.pool_info.pool_identifier == *id)).count();
     out.push(format!("mon_pools_kept {}", removed));
     // C05: farm manager custody per denom
@@ -170,7 +183,8 @@ pub fn tx_monitors(h: &Hist, ms: &mut MonState, b: &Obs, line: &str, res: &str, 
     let ok = res == "ok";
     if line.starts_with("send ") {
         let t: Vec<&str> = line.split_whitespace().collect();
-        if ok && (t[2] == "pm" || t[2] == "fm") && t[2] == "pm" { /* donation: excess moves by exactly the amount */ }
+        // LP tokens donated to the pool manager: the "LP held = locked minimum" reading no longer applies
+        if ok && t[2] == "pm" && t.len() > 4 && t[4].starts_with("factory/") { ms.tainted = true; }
         // excess accounting for a plain send
         for d in BASE_DENOMS.iter() {
             let sb: u128 = b.pools.iter().map(|p| reserve(&p.pool_info, d)).sum();
@@ -393,7 +407,7 @@ pub fn tx_monitors(h: &Hist, ms: &mut MonState, b: &Obs, line: &str, res: &str, 
             let after = a.positions.iter().find(|q| q.identifier == p.identifier);
             let changed = match after { Some(q) => q.lp_asset.amount != p.lp_asset.amount || q.open != p.open || q.receiver != p.receiver, None => true };
             if changed {
-                out.push(format!("mon_pos_changed {}", (h.w.n(p.receiver.as_str()) == tx.sender) as u8));
+                out.push(format!("mon_pos_changed {}", (h.w.n(p.receiver.as_str()) == tx.sender || tx.sender == "pm") as u8));
                 // C14: a single-asset deposit never touches a position of someone other than the sender
                 if tx.contract == "pm" && tx.kind == "provide" && tx.funds.len() == 1 {
                     out.push(format!("mon_single_lock {}", (h.w.n(p.receiver.as_str()) == tx.sender) as u8));
@@ -403,7 +417,7 @@ pub fn tx_monitors(h: &Hist, ms: &mut MonState, b: &Obs, line: &str, res: &str, 
         for q in a.positions.iter() {
             if !b.positions.iter().any(|p| p.identifier == q.identifier) {
                 // new position: created by its owner, or by the pool manager for the depositor (= tx sender)
-                out.push(format!("mon_pos_created {} {}", (h.w.n(q.receiver.as_str()) == tx.sender) as u8, (tx.contract == "pm") as u8));
+                out.push(format!("mon_pos_created {} {}", (h.w.n(q.receiver.as_str()) == tx.sender || tx.sender == "pm") as u8, (tx.contract == "pm") as u8));
                 if tx.contract == "pm" && tx.kind == "provide" && tx.funds.len() == 1 {
                     out.push(format!("mon_single_lock {}", (h.w.n(q.receiver.as_str()) == tx.sender) as u8));
                 }
